@@ -1,7 +1,7 @@
 import BeyondVerif.Props.C13Parts
 /-!
 C13, `load_dump_id` for a whole message type: **OPM in XML**.  For every well-formed OPM
-(any of the ten frames, any texts, covariance absent / own frame / QSW / TNW, any number of
+(any registered frame — Earth-centred or centred elsewhere —, any texts, covariance absent / own frame / QSW / TNW, any number of
 maneuvers of either kind in own frame / QSW / TNW with or without comment, any number of
 user-defined fields, Keplerian block written or not) `loadOpmXml (opmXml m)` is `m` again
 (the Keplerian block, which the reader ignores, dropped; an empty user-defined dict read as none).
@@ -19,13 +19,30 @@ theorem meta_xml (name id center frame scale : String) (h1 : name ≠ "") (h2 : 
     recurse (metaXml name id center frame scale []) = some (.dict (metaDict name id center frame scale)) := by
   simp [metaXml, metaDict, leafS, recurse, recurseKids, addChild, Elem.tag, List.lookup, h1, h2, h3, h4, h5]
 
-/-- every frame of the table is written as a (centre, frame) pair of non-empty texts that the centre rule maps back -/
+theorem frameTable_facts : ∀ e ∈ frameTable,
+    frameOut e.1 = .ok (e.2.1, e.2.2) ∧ centreRule e.2.1 e.2.2 = .ok e.1 ∧ e.2.1 ≠ "" ∧ e.2.2 ≠ "" ∧ (e.2.1 = "EARTH" → e.2.2 = e.1) := by
+  decide
+
+/-- every registered frame (Earth-centred or not) is written as a (centre, frame) pair of non-empty texts that the centre rule maps
+back; for an Earth-centred one REF_FRAME is the frame's own name -/
 theorem frameOut_ok (f : String) (hf : f ∈ frameTable.map (·.1)) :
+    ∃ c r, frameOut f = .ok (c, r) ∧ centreRule c r = .ok f ∧ c ≠ "" ∧ r ≠ "" ∧ (c = "EARTH" → r = f) := by
+  obtain ⟨e, he, rfl⟩ := List.mem_map.mp hf
+  exact ⟨_, _, frameTable_facts e he⟩
+
+/-- names of the Earth-centred frames (an OMM is always in one of them: TEME) -/
+def earthFrames : List String := (frameTable.filter fun e => e.2.1 = "EARTH").map (·.1)
+
+theorem earthFrames_sub (f : String) (hf : f ∈ earthFrames) : f ∈ frameTable.map (·.1) := by
+  obtain ⟨e, he, rfl⟩ := List.mem_map.mp hf
+  exact List.mem_map.mpr ⟨e, (List.mem_filter.mp he).1, rfl⟩
+
+theorem frameOut_ok_earth (f : String) (hf : f ∈ earthFrames) :
     ∃ c r, frameOut f = .ok (c, r) ∧ centreRule c r = .ok f ∧ c ≠ "" ∧ r ≠ "" ∧ r = f := by
-  have : frameTable.map (·.1) = ["EME2000", "MOD", "TOD", "TEME", "PEF", "ITRF", "TIRF", "CIRF", "GCRF", "G50"] := by decide
-  rw [this] at hf
-  simp only [List.mem_cons, List.not_mem_nil, or_false] at hf
-  rcases hf with h | h | h | h | h | h | h | h | h | h <;> subst h <;> exact ⟨_, _, rfl, by decide, by decide, by decide, rfl⟩
+  obtain ⟨e, he, rfl⟩ := List.mem_map.mp hf
+  obtain ⟨hm, hc⟩ := List.mem_filter.mp he
+  obtain ⟨h1, h2, h3, h4, h5⟩ := frameTable_facts e hm
+  exact ⟨_, _, h1, h2, h3, h4, h5 (by simpa using hc)⟩
 
 def KepWf (ks : List Txt) : Prop :=
   ∃ a b c d e f g, ks = [a, b, c, d, e, f, g] ∧ a ≠ .s "" ∧ b ≠ .s "" ∧ c ≠ .s "" ∧ d ≠ .s "" ∧ e ≠ .s "" ∧ f ≠ .s "" ∧ g ≠ .s ""
@@ -45,14 +62,14 @@ def CovWf (c : CovM) : Prop :=
 theorem covFrameOut_ne (c : CovM) (h : c.frame = none ∨ c.frame = some "QSW" ∨ c.frame = some "TNW") : covFrameOut c ≠ some "" := by
   rcases h with h | h | h <;> simp [covFrameOut, h, aliasOut, covAliasOut, List.lookup]
 
+theorem covFrameBack_table : ∀ own ∈ frameTable.map (·.1), ∀ fr ∈ [none, some "QSW", some "TNW"],
+    covFrameBack own ⟨fr, []⟩ = fr := by decide
+
 theorem covFrameBack_ok (own : String) (c : CovM) (hown : own ∈ frameTable.map (·.1))
     (h : c.frame = none ∨ c.frame = some "QSW" ∨ c.frame = some "TNW") : covFrameBack own c = c.frame := by
-  have hmem : own ∈ ["EME2000", "MOD", "TOD", "TEME", "PEF", "ITRF", "TIRF", "CIRF", "GCRF", "G50"] := by
-    have : frameTable.map (·.1) = ["EME2000", "MOD", "TOD", "TEME", "PEF", "ITRF", "TIRF", "CIRF", "GCRF", "G50"] := by decide
-    rw [this] at hown; exact hown
-  simp only [List.mem_cons, List.not_mem_nil, or_false] at hmem
-  rcases h with h | h | h <;> rcases hmem with e | e | e | e | e | e | e | e | e | e <;> subst e <;>
-    simp [covFrameBack, covFrameOut, h, aliasIn, aliasOut, covAliasIn, covAliasOut, List.lookup] <;> decide
+  have h0 : covFrameBack own c = covFrameBack own ⟨c.frame, []⟩ := rfl
+  rw [h0]
+  exact covFrameBack_table own hown c.frame (by rcases h with h | h | h <;> simp [h])
 
 /-- covariance block of an OPM/OMM (no EPOCH child), packaged for well-formed covariances -/
 theorem cov_xml_roundtrip' (own : String) (hown : own ∈ frameTable.map (·.1)) (c : CovM) (h : CovWf c) :
@@ -282,7 +299,7 @@ theorem segPath_odm (MD D : Dict) :
     segPath [("header", headerDict), ("body", .dict [("segment", .dict [("metadata", .dict MD), ("data", .dict D)])])] = .ok (MD, D) := by
   simp [segPath, getItem, Val.item, asDict, List.lookup, bind, Except.bind, pure, Except.pure]
 
-/-- **`load_dump_id`, OPM, XML.**  For every well-formed OPM `m` — any of the ten frames; name, identifier, time
+/-- **`load_dump_id`, OPM, XML.**  For every well-formed OPM `m` — any registered frame (the ten Earth-centred ones, or one centred on a solar-system / JPL body or a Lagrange point: regenerated table); name, identifier, time
 scale, epoch and coordinates any non-empty texts; Keplerian block written or not; covariance absent or present in the
 orbit's frame, QSW or TNW; any number of maneuvers, impulsive or continuous, in the orbit's frame, QSW or TNW, with
 or without comment; user-defined fields absent, empty, one or many — reading what the XML writer produced gives `m`
